@@ -83,7 +83,7 @@ def gen_doc(rng, ntok):
         elif shape == "circle":
             geo = [length(rng), length(rng), length(rng, 1, allow_none=False, allow_pct=False)]
         elif shape == "ellipse":
-            geo = [length(rng), length(rng), length(rng, 1, allow_none=False, allow_pct=False), length(rng, 1, allow_none=False, allow_pct=False)]
+            geo = [length(rng), length(rng), length(rng, 1, allow_none=False), length(rng, 1, allow_none=False)]      # (radii may be percentages: rx of the viewport width, ry of its height)
         elif shape == "line":
             geo = [length(rng), length(rng), length(rng), length(rng)]
         elif shape in ("polyline", "polygon"):
